@@ -10,6 +10,7 @@ def run(rep, tier):
         rep.call(dispatch_rules.t_dispatch, rep, prog, "C02.dispatch")
         rep.call(dispatch_rules.t_feature, rep, prog, "C02.feature")
         rep.call(dispatch_rules.t_precision, rep, prog, "C02.precision")
+        rep.call(dispatch_rules.headroom, rep, prog, "C02.headroom")
         rep.call(simd_rules.conv_saturate, rep, prog, "C02.saturate")
         rep.call(simd_rules.zero_extend, rep, prog, "C02.zero-extend")
         rep.call(row_coverage.group_tail, rep, prog, "C02.kernel-rows")
